@@ -6,13 +6,8 @@ theorem clean_parts {st : St} {op : Op} (h : clean st op = true) :
     trigCellsName st op = false ∧ trigDoubleSpec st op = false ∧
     trigDirtyDelete st op = false ∧ trigUpdateOnto st op = false := by
   simp only [clean, Bool.and_eq_true, Bool.not_eq_true'] at h
-  obtain ⟨⟨⟨⟨⟨a, b⟩, e⟩, f⟩, _⟩, _⟩ := h
+  obtain ⟨⟨⟨a, b⟩, e⟩, f⟩ := h
   exact ⟨a, b, e, f⟩
-
-theorem clean_parts' {st : St} {op : Op} (h : clean st op = true) :
-    trigClosedNew st op = false ∧ trigPathAlias st op = false := by
-  simp only [clean, Bool.and_eq_true, Bool.not_eq_true'] at h
-  exact ⟨h.1.2, h.2⟩
 
 theorem rinv_empty : RInv ({} : St) := by
   refine ⟨by simp, by simp, ?_, by simp, by simp, by simp, by simp, ⟨by simp [sp], by simp [sp]⟩⟩
@@ -43,7 +38,9 @@ theorem rinv_step (kw : List String) {st : St} (h : RInv st) {op : Op} (hc : cle
   | newPandas o name path csv sheet data =>
     simp only; split
     · exact h
-    · exact (newPandas_spec (path := pathKey path) h k1 k2).1
+    · split
+      · exact h
+      · exact (newPandas_spec (path := normPath path) h k1 k2).1
   | bind o name v =>
     simp only; split
     · exact h
@@ -65,7 +62,7 @@ theorem rinv_step (kw : List String) {st : St} (h : RInv st) {op : Op} (hc : cle
   | setPath m v p =>
     simp only; split
     · exact h
-    · exact (rinv_setPath h m v (pathKey p)).1
+    · exact (rinv_setPath h m v (normPath p)).1
   | delSpec m v =>
     simp only; split
     · exact h
@@ -121,7 +118,11 @@ theorem spec_survives_step (kw : List String) {st : St} (h : RInv st) {op : Op}
     · rename_i hd; simp only [hd, if_true] at hnot; exact absurd hσ hnot
     · rename_i hd
       simp only [hd] at hnot
-      exact (newPandas_spec (kw := kw) (path := pathKey path) h k1 k2).2 σ hσ hnot
+      split
+      · rename_i hc; simp only [hc, if_true] at hnot; exact absurd hσ hnot
+      · rename_i hc
+        simp only [hc] at hnot
+        exact (newPandas_spec (kw := kw) (path := normPath path) h k1 k2).2 σ hσ hnot
   | bind o name v =>
     simp only at hnot ⊢
     split
@@ -156,7 +157,7 @@ theorem spec_survives_step (kw : List String) {st : St} (h : RInv st) {op : Op}
     simp only at hgone
     split at hgone
     · exact absurd rfl (hgone σ hσ)
-    · obtain ⟨τ, hτ, he⟩ := (rinv_setPath h m v (pathKey p)).2 σ hσ
+    · obtain ⟨τ, hτ, he⟩ := (rinv_setPath h m v (normPath p)).2 σ hσ
       exact absurd he (hgone τ hτ)
   | delSpec m v => cases hop
   | close m => cases hop
